@@ -1,6 +1,7 @@
 (* C01 - wire codec round trip.  Statements only; proofs live in Wire/*Proofs.v. *)
 From LibcoapV Require Import Base.Tactics Base.Bytes Wire.OptCodec Wire.OptCodecProofs Wire.Pdu
   Wire.PduProofs Wire.Build Wire.BuildProofs.
+From LibcoapV Require Import Wire.InsertBytes Wire.InsertBytesProofs.
 Local Open Scope Z_scope.
 
 (* every option header/value form round-trips, for every delta and every value length the
@@ -99,3 +100,31 @@ Theorem C01_demo_build :
   parse WS (serialize WS (p_msg p)) = Some (norm_fields WS (p_msg p)).
 Proof. exact demo_build. Qed.
 Print Assumptions C01_demo_build.
+
+(* the out-of-order add at the byte level: coap_insert_option's in-place edit (locate the next
+   option, re-encode its delta field in place - the header may shrink by one or two bytes -,
+   move the tail, write the new option; Wire/InsertBytes.v, transcribed branch by branch) turns
+   the canonical encoding of any ascending well-formed option list holding an option with a
+   larger number into the canonical encoding of [insert_opt n v l], and leaves whatever follows
+   the options (marker, payload) as it was *)
+Theorem C01_insert_bytes_refine : forall n v l tail,
+  ascending 0 l -> Forall opt_wf l -> 0 <= n -> Exists (fun o => n < fst o) l ->
+  bi_insert (opts_enc 0 l ++ tail) n v = Some (opts_enc 0 (insert_opt n v l) ++ tail).
+Proof. exact bi_insert_refines. Qed.
+Print Assumptions C01_insert_bytes_refine.
+
+(* the six (old delta, new delta) classes of the header patch *)
+Theorem C01_insert_header_patch : forall d_old d_new w rest,
+  1 <= d_new -> d_new <= d_old -> d_old <= 65535 ->
+  bi_patch (opt_enc d_old w ++ rest) d_old d_new = opt_enc d_new w ++ rest.
+Proof. exact bi_patch_enc. Qed.
+Print Assumptions C01_insert_header_patch.
+
+Theorem C01_insert_bytes_demo :
+  bi_insert (opts_enc 0 [(3, [104]); (65000, [1; 2])] ++ [255; 9]) 11 [97] =
+    Some (opts_enc 0 [(3, [104]); (11, [97]); (65000, [1; 2])] ++ [255; 9]) /\
+  bi_insert (opts_enc 0 [(300, [7])]) 299 [] = Some (opts_enc 0 [(299, []); (300, [7])]) /\
+  bi_insert (opts_enc 0 [(300, [7])]) 40 [5] = Some (opts_enc 0 [(40, [5]); (300, [7])]) /\
+  bi_insert (opts_enc 0 [(20, [7])]) 12 [5] = Some (opts_enc 0 [(12, [5]); (20, [7])]).
+Proof. exact bi_insert_demo. Qed.
+Print Assumptions C01_insert_bytes_demo.
